@@ -393,7 +393,8 @@ class Param():
 
         def new_packet_cb(pk):
             if pk.channel == MISC_CHANNEL and pk.data[0] == MISC_GET_DEFAULT_VALUE:
-                if pk.data[3] == errno.ENOENT:
+                # An error reply carries nothing but the error code
+                if len(pk.data) == 4 and pk.data[3] == errno.ENOENT:
                     callback(complete_name, None)
                     self.cf.remove_port_callback(CRTPPort.PARAM, new_packet_cb)
                     return
